@@ -128,10 +128,10 @@ class C06(core.Check):
         'illegal:cross-region-ref', 'illegal:cross-file-ref', 'illegal:ref-after-org', 'illegal:ref-after-memzone',
         'illegal:undefined', 'illegal:dup-global', 'illegal:dup-file', 'illegal:dup-local', 'illegal:orphan-local',
         'illegal:register-name', 'illegal:register-name/declared-in-upper-case', 'illegal:keyword-name', 'illegal:dup-global-across-files', 'illegal:dup-same-value',
-        'dead-branch-inside-region', 'dead-branch-between-local-def-and-use', 'reference-on-a-muted-line', 'const-between-def-and-use',
+        'dead-branch-inside-region', 'dead-branch-between-local-def-and-use', 'reference-on-a-muted-line', 'reference-in-a-zero-length-fill', 'const-between-def-and-use',
         'files:1', 'files:2', 'files:3+', 'expect:ACCEPT', 'expect:REJECT', 'ref:forward', 'ref:backward']}
 
-    def build(self, rng, illegal, mute_refs=None):
+    def build(self, rng, illegal, mute_refs=None, zero_refs=None):
         nfiles = rng.choice([1, 1, 2, 2, 3, 4])
         fnames = ['p.asm'] + [f'inc{i}.asm' for i in range(1, nfiles)]
         files = {f: [] for f in fnames}
@@ -253,6 +253,15 @@ class C06(core.Check):
                     else:
                         out_.append(it)
                 files[f] = out_
+        # some references stand in the value of a zero-length .fill: nothing is emitted, the reference is resolved all the same
+        if zero_refs is None:
+            zero_refs = rng.random() < 0.3
+        if zero_refs:
+            for f in fnames:
+                for it in files[f]:
+                    if it['k'] == 'ref' and rng.random() < 0.5:
+                        it['zero'] = rng.choice(['0', '4-4', '0*9', '$0'])
+                        tags.add('reference-in-a-zero-length-fill')
         m = resolve_program(files, 'p.asm')
         if illegal and m['kind'] != 'REJECT':
             return None
@@ -264,6 +273,8 @@ class C06(core.Check):
             k = it['k']
             if k == 'marker':
                 lines.append({'k': 'data', 'width': 1, 'vals': [it['v']], 'src': it})
+            elif k == 'ref' and it.get('zero'):
+                lines.append({'k': 'fill', 'n': 0, 'v': 0, 'src': it})
             elif k == 'ref':
                 lines.append({'k': 'data', 'width': 2, 'vals': [0], 'src': it})
             elif k in ('mute', 'unmute'):
@@ -286,7 +297,7 @@ class C06(core.Check):
                     l['vals'] = [t['addr_val'] if t['k'] == 'label' else t['val']]
                     if t['k'] == 'label':
                         tags.add('ref:forward' if order_idx.get(id(t), 0) > order_idx[id(l['src'])] else 'ref:backward')
-            layout.memory_map(res, lambda l: layout.data_bytes(l['width'], l['vals'], 'big'))
+            layout.memory_map(res, lambda l: b'' if l['k'] == 'fill' else layout.data_bytes(l['width'], l['vals'], 'big'))
             exp = layout.image(res.M, 0, None, 0).hex()
         # render
         fl = {}
@@ -296,6 +307,8 @@ class C06(core.Check):
                 k = it['k']
                 if k == 'marker':
                     out.append(f".byte {it['v']}")
+                elif k == 'ref' and it.get('zero'):
+                    out.append(f".fill {it['zero']}, " + rng.choice(['{}', '{} + 1', 'BYTE0({})']).replace('{}', it['name']))
                 elif k == 'ref':
                     form = rng.choice(['{}', '{}', '({})', '{} + 0', '{}+1-1', 'BYTE1({})<<8 | BYTE0({})'])
                     out.append('.2byte ' + form.replace('{}', it['name']))
@@ -500,7 +513,7 @@ class C06(core.Check):
                 ill = ([None] + self.ILLEGAL)[made % (len(self.ILLEGAL) + 1)]
             elif rng.random() < 0.5:
                 ill = rng.choice(self.ILLEGAL)
-            c = self.build(rng, ill, mute_refs=(made % 2 == 1) if made < n_pre else None)
+            c = self.build(rng, ill, mute_refs=(made % 2 == 1) if made < n_pre else None, zero_refs=(made % 3 == 2) if made < n_pre else None)
             if c is None:
                 if made < n_pre:
                     made += 0
